@@ -145,7 +145,7 @@ def ops_for(model):
     return spec_ops.plate_ops
 
 
-def oracle_matrix(model, panel, kind, params, size, row0, col0, y12=None):
+def oracle_matrix(model, panel, kind, params, size, row0, col0, y12=None, F=None):
     """kind in {'k0','kG0','kM'}: dense symmetric matrix from the energy definition"""
     num = 1 if model.endswith('_w') else 3
     flds = ['w'] if num == 1 else list(FLDS)
@@ -155,7 +155,7 @@ def oracle_matrix(model, panel, kind, params, size, row0, col0, y12=None):
         e1, e2 = -1., 1.
     else:
         e1, e2 = 2 * y12[0] / panel.b - 1., 2 * y12[1] / panel.b - 1.
-    F = np.asarray(panel.lam.ABD) if kind == 'k0' else None
+    F = (np.asarray(F) if F is not None else np.asarray(panel.lam.ABD)) if kind == 'k0' else None
     for (xi1, xi2, r, b) in sections_of(model, panel):
         P = dict(a=panel.a, b=b, r=r, sina=math.sin(getattr(panel, 'alpharad', 0.) or 0.),
                  cosa=math.cos(getattr(panel, 'alpharad', 0.) or 0.))
